@@ -2432,7 +2432,7 @@ class nxt_packet_in (nicira_base, of.ofp_packet_in):
                           self.reason, self.table_id, self.cookie,
                           match_len)
     packed += _PAD6
-    packed += match.pack()
+    packed += self.match.pack()
     packed += _PAD * ((match_len + 7)//8*8 - match_len)
     packed += _PAD2
     packed += self.packed_data
